@@ -328,14 +328,63 @@ def rule_empty(report, prog):
         buf.check(report, prog, f, v, 'C12-R5', 'ISO-DEP block')
 
 
+def rule_activation_parameters(report, prog):
+    """R1 (activation): the frame size and frame waiting time handed to the ISO-DEP layer are the ones the card announced: the
+    activation code of both tag types is folded by the checker for every FSCI / FWI pair (Type 4A: ATS with and without TA(1),
+    Type 4B: SENSB_RES protocol info) and must give FSC = table[min(FSCI, 8)] and FWT = 4096/fc * 2^FWI (RFU FWI 15 -> 4)."""
+    from ..q import fold_lenient
+    table = (16, 24, 32, 40, 48, 64, 96, 128, 256)
+    for q, kind in (('nfc.tag.tt4.Type4ATag.__init__', 'A'), ('nfc.tag.tt4.Type4BTag.__init__', 'B')):
+        f = prog.func(q)
+        bad = []
+        folded = 0
+        for fsci in range(16):
+            for fwi in range(16):
+                variants = []
+                if kind == 'B':
+                    sb = bytearray(12)
+                    sb[0] = 0x50
+                    sb[10] = (fsci << 4) | 1
+                    sb[11] = (fwi << 4) | 0x05
+                    variants.append(({'target.sensb_res': sb}, ()))
+                else:
+                    for ta in (True, False):
+                        t0 = fsci | 0x60 | (0x10 if ta else 0)
+                        ats = bytearray([0, t0] + ([0x00] if ta else []) + [(fwi << 4) | 2, 0x02])
+                        ats[0] = len(ats)
+                        variants.append(({'rats_res': ats}, ('rats_res',)))
+                for env0, seeds in variants:
+                    env = dict(env0)
+                    env.update({'self.clf.max_send_data_size': 290, 'self.clf.max_recv_data_size': 290})
+                    stopped = fold_lenient(f.node.body, env, seeds=seeds,
+                                           stop=lambda st: isinstance(st, ast.Assign) and norm(st.targets[0]) == 'self._dep')
+                    folded += 1
+                    want_fsc = table[min(fsci, 8)]
+                    want_fwt = 4096 / 13.56E6 * 2 ** (fwi if fwi <= 14 else 4)
+                    got_fsc, got_fwt = env.get('fsc'), env.get('fwt')
+                    if not stopped or got_fsc is None or got_fwt is None:
+                        bad.append('cannot fold the activation parameters (FSCI %d, FWI %d)' % (fsci, fwi))
+                    elif got_fsc != want_fsc or abs(got_fwt - want_fwt) > 1e-12:
+                        bad.append('FSCI %d / FWI %d announced: FSC %s, FWT %.6f handed to ISO-DEP instead of FSC %d, FWT %.6f'
+                                   % (fsci, fwi, got_fsc, got_fwt, want_fsc, want_fwt))
+            if bad and bad[-1].startswith('cannot'):
+                break
+        report.check(not bad, 'C12-R1', key(q, 'FSC / FWT handed to ISO-DEP are the announced FSCI / FWI'), f.loc(),
+                     '%s: %s' % (q, '; '.join(bad[:2])), detail='%d parameter sets folded' % folded)
+
+
 def run(report, prog, tier):
     res = Resolver(prog)
     rule_budget(report, prog)
+    rule_activation_parameters(report, prog)
     rule_block_number(report, prog)
     rule_error_mapping(report, prog, res)
     rule_bounded(report, prog)
     rule_empty(report, prog)
     rule_once(report, prog)
+    # ISO-DEP blocks are protected by the chip's CRC check: no driver routes an ISO-DEP capable target through the Type 2 path
+    from .c14 import rule_crc_routing
+    rule_crc_routing(report, prog, rule='C12-R7')
     report.trusted += ['ISO/IEC 14443-4 block formats (PCB values), FSCI table', 'clf.exchange raises only CommunicationError subclasses or IOError (C13)']
     report.assumptions += ['the card model (at-most-once execution) is out of reach of a static rule']
 
@@ -365,6 +414,8 @@ triage.add('C12', 'C12-R5', key(ISO + '.exchange', 'data is long enough for', 'd
 
 T4 = 'nfc.tag.tt4'
 MUTANTS = [
+    ('t4b-fsci-fwi-swapped', T4, "fsci, fwti = target.sensb_res[10] >> 4, target.sensb_res[11] >> 4", "fsci, fwti = target.sensb_res[11] >> 4, target.sensb_res[10] >> 4", 'C12-R1'),
+    ('t4a-tb-index-ignores-ta', T4, "tb_index = 2 + (rats_res[1] >> 4 & 1)  # TB(1) follows TA(1)", "tb_index = 2  # TB(1)", 'C12-R1'),
     ('fsc-raised-after-table', T4, """            log.warning("FWI with RFU value in SENSB_RES")
             fwti = 4
 
